@@ -521,6 +521,90 @@ def _part_c(ctx, item):
 
 
 # ---------------------------------------------------------------------------
+# part D: files written by hand (continuation lines, comments, quoting) mean the same to dulwich and to git
+
+
+def _hw_value(rnd):
+    parts = []
+    for _ in range(rnd.randrange(0, 6)):
+        k = rnd.randrange(12)
+        if k < 3:
+            parts.append(rnd.choice([b"word", b"x", b"C:", b"a=b", b"1"]))
+        elif k == 3:
+            parts.append(b" ")
+        elif k == 4:
+            parts.append(b"\\\\" * rnd.randrange(1, 4))  # 1..3 escaped backslashes
+        elif k == 5:
+            parts.append(rnd.choice([b'\\"', b"\\n", b"\\t", b"\\b"]))
+        elif k == 6:
+            parts.append(b'"' + rnd.choice([b"q s", b"a;b", b"a#b", b" lead", b"trail ", b"z", b"x\\\\y", b'in\\"q']) + b'"')
+        elif k == 7:
+            parts.append(b"\\\n" + rnd.choice([b"cont", b"w", b"2"]))  # continuation; the next line starts with a non-blank
+        elif k == 8:
+            parts.append(b"  ")
+        else:
+            parts.append(rnd.choice([b"v", b"-", b".", b"/", b"~"]))
+    return b"".join(parts)
+
+
+def handwritten_file(rnd):
+    """A config file the way people write them.  Left out on purpose (dulwich and git 2.39 are known to read them
+    differently and the statement does not cover them): tabs inside unquoted values (git < 2.46 turns them into blanks),
+    an empty quoted segment after a blank, leading blanks on a continuation line."""
+    lines = []
+    ki = 0
+    for _ in range(rnd.randrange(1, 4)):
+        lines.append(rnd.choice([b"[core]", b"[Sec]", b'[remote "origin"]', b'[a "s\\\\b \\"q\\""]', b"[x.y]", b"[core] # c"]))
+        for _ in range(rnd.randrange(0, 4)):
+            key = b"k%d" % ki
+            ki += 1
+            form = rnd.randrange(8)
+            if form == 0:
+                lines.append(b"\t" + key)
+            elif form == 1:
+                lines.append(b"\t" + key + b" =")
+            else:
+                lines.append(rnd.choice([b"\t", b"", b"  "]) + key + rnd.choice([b" = ", b"=", b" =", b"= "]) + _hw_value(rnd)
+                             + rnd.choice([b"", b"", b" ; comment", b" # c", b" ;x"]))
+        if rnd.randrange(5) == 0:
+            lines.append(rnd.choice([b"; full line comment", b"# c", b"", b"   "]))
+    eol = rnd.choice([b"\n", b"\n", b"\r\n"])
+    return eol.join(l.replace(b"\n", eol) for l in lines) + (eol if rnd.randrange(6) else b"")
+
+
+def judge_handwritten(ctx, data, check="handwritten"):
+    g = git_read(data, os.path.join(ctx.scratch.path, "hw.cfg"))
+    if isinstance(g, tuple):
+        return "git-rejects"
+    g = {k: [b"true" if x is None else x for x in v] for k, v in g.items()}  # dulwich's API spells a valueless key b"true"
+    d = _try_dulwich_read(data)
+    case = dict(data=data)
+    if isinstance(d, tuple):
+        ctx.fail(f"C20:handwritten:dulwich-rejects:{d[1].split(':')[0]}", f"git config reads {data!r} as {g!r}; dulwich raises {d[1]}", check, case)
+        return "dulwich-rejects"
+    if d != g:
+        keys = sorted(k for k in set(d) | set(g) if d.get(k) != g.get(k))
+        ctx.fail("C20:handwritten:values-differ", f"file {data!r}: git config reads {[(k, g.get(k)) for k in keys][:3]!r}, dulwich reads {[(k, d.get(k)) for k in keys][:3]!r}", check, case)
+        return "differ"
+    return "same"
+
+
+def _hw_test(ctx, rnd):
+    data = handwritten_file(rnd)
+    out = judge_handwritten(ctx, data)
+    cont = b"\\\n" in data or b"\\\r\n" in data
+    ctx.case(("hw", data), nontrivial=cont or b'"' in data or b";" in data or b"#" in data,
+             labels=("handwritten", "handwritten:" + out) + (("handwritten:continuation",) if cont else ()),
+             sample=dict(file=data, outcome=out) if cont and len(data) < 120 else None)
+
+
+def _part_d(ctx, n):
+    from hypothesis import strategies as st
+
+    run_hypothesis(ctx, st.randoms(use_true_random=False), _hw_test, max_examples=n)
+
+
+# ---------------------------------------------------------------------------
 
 
 def selftest(ctx):
@@ -544,6 +628,7 @@ def run(ctx):
     ctx.parallel(_part_b, [per] * 16)
     per_c = ctx.scale(100, 1500)
     ctx.parallel(_part_c, [(per_c, 16, k) for k in range(16)])
+    ctx.parallel(_part_d, [ctx.scale(120, 4000)] * 16)
     # coverage-guided campaigns over raw config text: whatever the parser accepts must survive write -> read (E3)
     from .. import fuzz
 
@@ -559,6 +644,8 @@ def replay(ctx, check, case):
         judge_batch(ctx, [tuple(e) for e in case["entries"]])
     elif check == "git-written":
         _judge_git_written_single(ctx, tuple(case["section"]), case["key"], case["value"], check)
+    elif check == "handwritten":
+        judge_handwritten(ctx, case["data"])
     elif check == "fuzz":
         from .. import fuzz
 
